@@ -11,4 +11,5 @@ from emir import driver
 print(driver.replay_bin('dev'))
 print(driver.replay_bin('release'))
 print(driver.mir_dump(())[0])
+print(driver.mir_dump(('c-api',))[0])
 PY
